@@ -86,6 +86,8 @@ type FSPlan struct {
 type FS struct {
 	Root string
 	Plan FSPlan
+	// YieldAfterRead adds a scheduling point right after every read.
+	YieldAfterRead bool
 	// InBubble: the run executes inside a synctest bubble.
 	InBubble bool
 	// Sched, when set, makes every tracked op a scheduling point.
@@ -227,6 +229,11 @@ func (fs *FS) FSAfter(op *simhook.FSOp, n int64, err error) {
 		fs.Fired = fmt.Sprintf("crash after op %d (%s) variant=%s", fs.count, rec.String(), fs.Plan.Variant)
 	}
 	fs.mu.Unlock()
+	if !crash && fs.Sched != nil && fs.YieldAfterRead && (op.Kind == "read" || op.Kind == "readat") {
+		// data has arrived in the caller's buffer but has not been used yet:
+		// a preemption point of its own (buffers shared between goroutines)
+		fs.Sched.Yield("fs-done:" + op.Kind)
+	}
 	if crash {
 		// The process is dead from here on: the disk accepts nothing more
 		// (every later op fails without touching the file system), the
